@@ -40,6 +40,9 @@ func genCfg(rng *Rng, self uint64) *Cfg {
 func secNode(root string, k int) (*Sim, *SimNode, error) {
 	s := NewSim(fmt.Sprintf("%s/s%d", root, k), SimOpts{})
 	n, err := s.Boot(1, "", 0, nil)
+	if err == nil {
+		n.FSM.Lenient = true
+	}
 	return s, n, err
 }
 
